@@ -196,3 +196,22 @@ package bondmachine
 //@   loop 18: modifies vm.Outputs_regs[*]
 //@   loop 19: modifies vm.Internal_inputs_regs[*]
 //@   loop 20: modifies vm.Internal_outputs_regs[*]
+
+// ---- one processor's worker touches only that processor (C09) -------------------------------------------------------
+
+//@ props C09
+
+// Every round of the worker (one token received, one answer sent) writes only the state of processor procId: its VM's
+// fields, register/memory/port arrays and per-VM opcode state. Nothing of the machine-level VM, of another
+// processor or of the shared machine description is written. (Channel operations are synchronisation points at which
+// the other goroutines may have changed anything but the worker's own view of the processor table.)
+//@ func (vm *VM) Processor_execute(psc *procbuilder.SimConfig, instruct <-chan int, resp chan<- int, resultChan chan<- string, procId int)
+//@   requires vm != nil && 0 <= procId && procId < len(vm.Processors) && vm.Processors[procId] != nil && vm.Processors[procId].Mach != nil && vm.Processors[procId].SimDelayArray == nil
+//@   sync preserves vm.Processors, vm.Processors[*], vm.Processors[procId].*
+//@   frameonly
+//@   loop 1: modifies vm.Processors[procId].DeferredInstructions, vm.Processors[procId].Pc, vm.Processors[procId].LastPc, vm.Processors[procId].DelayCounter,
+//@           vm.Processors[procId].Registers[*], vm.Processors[procId].Memory[*], vm.Processors[procId].Inputs[*], vm.Processors[procId].Outputs[*],
+//@           vm.Processors[procId].InputsValid[*], vm.Processors[procId].OutputsValid[*], vm.Processors[procId].InputsRecv[*], vm.Processors[procId].OutputsRecv[*],
+//@           vm.Processors[procId].Extra_states[*], vm.Processors[procId].DeferredInstructions[*]
+//@   loop 1: invariant mine: vm.Processors[procId] == pre(vm.Processors[procId]) && vm.Processors[procId] != nil && vm.Processors[procId].Mach != nil && vm.Processors[procId].SimDelayArray == nil
+//@   loop 1: invariant deferred: vm.Processors[procId].DeferredInstructions == pre(vm.Processors[procId].DeferredInstructions) || freshl(vm.Processors[procId].DeferredInstructions)
